@@ -159,6 +159,32 @@ theorem runCommand_frame (e : Env) (b : Nat) :
   split
   · exact ⟨rfl, rfl, rfl, Nat.le_refl _, fun _ _ => rfl⟩
   · rename_i bm hb
+    by_cases hsp : isSplit bm = true
+    · -- a `split` command: every output is either left alone or rewritten
+      rw [if_pos hsp]
+      refine ⟨rfl, rfl, rfl, Nat.le_succ _, ?_⟩
+      intro n hn
+      obtain ⟨ho, _⟩ := hn bm hb
+      unfold runSplit
+      simp only []
+      have hfold : ∀ (l : List (Nat × Nat)) (fs : FsM), (∀ oi ∈ l, fileName e.g oi.1 ≠ n) →
+          (l.foldl (fun (fs : FsM) (oi : Nat × Nat) =>
+            if (e.fs.get (fileName e.g oi.1)).map (·.content) == some (splitContent e bm oi.2 (fileName e.g oi.1)) then fs
+            else fs.put (fileName e.g oi.1) ⟨e.clock + 1, splitContent e bm oi.2 (fileName e.g oi.1)⟩) fs).get n = fs.get n := by
+        intro l
+        induction l with
+        | nil => intro fs _; rfl
+        | cons oi os ih =>
+          intro fs h
+          simp only [List.foldl_cons]
+          rw [ih _ (fun x hx => h x (by simp [hx]))]
+          split
+          · rfl
+          · exact FsM.get_put_other fs _ n _ (fun e' => h oi (by simp) e'.symm)
+      apply hfold
+      intro oi hoi
+      exact ho oi.1 (List.fst_mem_of_mem_zipIdx hoi)
+    rw [if_neg hsp]
     refine ⟨rfl, rfl, rfl, Nat.le_succ _, ?_⟩
     intro n hn
     obtain ⟨ho, hrw⟩ := hn bm hb
